@@ -7,6 +7,8 @@ Monitors (all decide on outcome classification recorded by the harness, no value
   templates  syntax-level operations (index, slice, assignment forms, destructuring, pop/remove,
              op-assign, switch, for, format strings) with pool operands
   contain    every call that raised is re-run as `try CALL catch e -> 77`: must evaluate to 77
+  programs   programs of the C05 generator with planted faults, wrapped in try/catch: the catch must receive
+             the error exactly when the reference interpreter says the program raises
   inject     fault injection through the fuel hook: the n-th evaluation step of a statement inside
              try/catch throws; the error must arrive at the catch and unnamed variables must survive
 Hang detection is logical (fuel ticks), never wall-clock; CPU-watchdog kills and allocation-budget
@@ -24,8 +26,8 @@ RULE = ("cases = (callable or syntax template, argument tuple from the hostile p
 ASSUMPTIONS = ["resource exhaustion (allocation budget 96 MiB, RLIMIT_AS, CPU watchdog 1.5 s/call quick, 4 s thorough) bounds the exploration and is inconclusive",
                "a call with only finite arguments that burns 10^6 evaluation ticks is a logical hang"]
 PLAN = {
-    "quick": {"pairs_per_callable": 60, "quick_pool": True, "triples_per_callable": 30, "templates": 1, "inject": 250, "shards": 71},
-    "thorough": {"pairs_per_callable": 100000, "triples_per_callable": 4000, "templates": 6, "inject": 6000, "shards": 142},
+    "quick": {"pairs_per_callable": 60, "quick_pool": True, "triples_per_callable": 30, "templates": 1, "inject": 250, "programs": 6000, "shards": 71},
+    "thorough": {"pairs_per_callable": 100000, "triples_per_callable": 4000, "templates": 6, "inject": 6000, "programs": 200000, "shards": 142},
 }
 
 REG = dict(level="exploration", min_nontrivial=20000, max_inconc=0.02,
@@ -323,6 +325,51 @@ def run_inject(sh, w, r, count):
             sh.violation("inject-unusable", "after a caught injected error the interpreter is unusable: %s" % str(last)[:120], replay)
 
 
+# ---------------------------------------------------------------- generated programs with planted faults
+
+def run_programs(sh, w, r, count):
+    """Programs from the C05 generator (which plants type errors, bad indices, arity errors, undeclared
+    names, redeclarations, explicit throws) wrapped in try/catch: whenever the reference interpreter
+    says the program raises, the enclosing catch must receive the error; no program may panic."""
+    from . import c05, c05_model as M
+    done = 0
+    while done < count:
+        batch = []
+        while len(batch) < 150:
+            g = c05.Gen(r, r.randint(15, 50))
+            try:
+                ast = g.program()
+                res = M.run_program(ast)
+                text = M.render(ast)
+            except (M.Decline, RecursionError):
+                continue
+            batch.append(("try (%s; \"completed\") catch __e -> \"CAUGHT\"" % text, res))
+        done += len(batch)
+        evs = core.eval_all(w, [b[0] for b in batch], fresh_each=True, fuel=400000, probe=PROBES[:1], jid="c14p")
+        for (text, res), ev in zip(batch, evs):
+            sh.seen(text, nontrivial=res["o"] == "throw")
+            o = ev.get("o")
+            replay = {"job": {"kind": "eval", "stmts": [text]}}
+            if o in ("crash", "timeout", "skipped", "lost", "fuel", "depth"):
+                if o == "crash" and ev.get("why") not in ("alloc", "killed", "stack"):
+                    sh.violation("program-crash|%s" % ev.get("rc"), "generated program killed the interpreter: %s" % text[:200], replay)
+                else:
+                    sh.inconc("program:" + o, text[:120])
+                continue
+            if o == "panic":
+                p = ev.get("panic") or {}
+                sh.violation("program-panic|%s" % norm_msg(p.get("msg")), "generated program panics (%s): %s" % (p.get("msg", "")[:80], text[:200]), replay)
+                continue
+            want = "CAUGHT" if res["o"] == "throw" else "completed"
+            sh.count("program:" + want)
+            if o != "ok" or norm(ev.get("v")) != {"s": want}:
+                sh.violation("program-containment|%s" % want, "program expected to end as %s under try/catch gave %s %s: %s" % (want, o, str(ev.get("v") or ev.get("err"))[:60], text[:200]), replay)
+                continue
+            pr = (ev.get("probe") or [{}])[0]
+            if pr.get("o") != "ok":
+                sh.violation("program-unusable", "interpreter unusable after a caught error: %s" % text[:200], replay)
+
+
 # ---------------------------------------------------------------- shard
 
 def shard(ctx, si, n):
@@ -389,6 +436,7 @@ def shard(ctx, si, n):
                 batch.append((fill(r, tmpl, args), list(args), "tmpl:" + tname))
         timed("templates", batch)
         run_inject(sh, w, r, max(1, ctx.plan["inject"] // n))
+        run_programs(sh, w, r, max(1, ctx.plan["programs"] // n))
     finally:
         w.close()
     return sh
